@@ -159,6 +159,7 @@ func (v *VRRPv2) Payload() []byte {
 // decodeVRRP will parse VRRP v2
 func decodeVRRP(data []byte, p gopacket.PacketBuilder) error {
 	if len(data) < 8 {
+		p.SetTruncated()
 		return errors.New("Not a valid VRRP packet. Packet length is too small.")
 	}
 	v := &VRRPv2{}
